@@ -9,6 +9,7 @@ import json
 
 CLASSES = ["PointCloud", "PolyLine", "SurfaceMesh", "VolumeMesh"]
 CLEARS = {"clear_fc", "clear_cc", "clear_cf"}
+QUIET = CLEARS | {"peek"}      # edits after which building again must change nothing
 RAW_ROUTES = ("list", "tuple", "numpy", "append")
 
 
@@ -78,6 +79,10 @@ def check_stage0(case, o, route, pads_1d=False):
         return ("vertices", "a 2-D / 3-D input point did not become a 3-D vertex: %s" % o["verts"][:4])
     if not o["vec_ok"] or not o.get("float_ok", True):
         return ("vertex-type", "vertices are not float Vec objects")
+    if o.get("alias_ok") is False:
+        return ("aliasing/inputs", "the built mesh changed when the objects handed to the containers were mutated afterwards")
+    if o.get("twin_ok") is False:
+        return ("shared-state/twin", "a second mesh built from equal arguments differs, or spoiling it in place changed the first")
     # ---- class = highest-dimensional element present (or the override)
     has_valid_edge = any(valid(e) for e in edges)
     d = 3 if cells else 2 if faces else 1 if has_valid_edge else 0
@@ -222,16 +227,19 @@ def check_stage0(case, o, route, pads_1d=False):
     return dup_finding
 
 
-def edited_input(case, prev, edits):
-    """The raw data a rebuild starts from: what the previous mesh exposed, after the edits (brute force on plain lists).
-    Returned in the shape of a generated case, so that the very same restatement (check_stage0) applies to the rebuild."""
+def edited_input(case, prev, edits, prev_is_data=False):
+    """The raw data a rebuild starts from: what the previous mesh exposed - or, after a construction that raised, the data
+    that construction was given - after the edits (brute force on plain lists).  Returned in the shape of a generated
+    case, so that the very same restatement (check_stage0) applies to the rebuild."""
     verts = [list(v) for v in prev["verts"]]
     edges = [list(e) for e in (prev["edges"] or [])]
     faces = [list(f) for f in (prev["faces"] or [])]
     cells = [list(c) for c in (prev["cells"] or [])]
     attrs = []
     for a in prev["eattrs"]:
-        if a["kind"] == "dense":
+        if prev_is_data:
+            attrs.append(json.loads(json.dumps(a)))
+        elif a["kind"] == "dense":
             attrs.append({"name": a["name"], "dense": True, "default": a["default"], "vals": list(a["vals"])})
         else:
             attrs.append({"name": a["name"], "dense": False, "default": a["default"],
@@ -297,14 +305,28 @@ def oracle_all(case, res):
                 continue
         edits = case.get("edits") or []
         stop = False
+        strip = lambda o: {k: v for k, v in o.items() if k not in ("alias_ok", "twin_ok")}
+        st = [strip(o) for o in st]
+        cur_in = inp            # the data the current attempt started from
         for i, s in enumerate(st[1:], 1):
             es = edits[i - 1] if i - 1 < len(edits) else []
             prev = st[i - 1]
             if "err" in prev:
-                break
+                # the construction raised (accepted above): the same raw data, edited, is built again
+                cur_in = edited_input(case, cur_in, es, prev_is_data=True)
+                m = check_stage0(cur_in, s, route)
+                if m:
+                    fails.append(("retry-" + m[0] if not m[0].startswith("edge-list/") else m[0],
+                                  "[%s] pass %d, building the same raw data again after the failed construction and edits %s: %s"
+                                  % (route, i, es, m[1])))
+                    if not m[0].startswith("edge-list/duplicate-declared"):
+                        stop = True
+                        break
+                continue
+            cur_in = edited_input(case, prev, es)
             fk = [skey(f) for f in (prev.get("faces") or [])]
             twin_faces = len(set(fk)) != len(fk)   # the same face twice: either copy may serve as a cell's face
-            if all(e[0] in CLEARS for e in es) and not twin_faces \
+            if all(e[0] in QUIET for e in es) and not twin_faces \
                     and json.dumps(s, sort_keys=True) != json.dumps(prev, sort_keys=True):
                 diff = [k for k in s if s.get(k) != prev.get(k)] if "err" not in s else ["raised " + s["err"]]
                 fails.append(("rebuild/" + (diff[0] if diff else "?"),
@@ -312,7 +334,7 @@ def oracle_all(case, res):
                               % (route, i, es, diff, {k: prev.get(k) for k in diff}, {k: s.get(k) for k in diff})))
                 stop = True
                 break
-            m = check_stage0(edited_input(case, prev, es), s, route)
+            m = check_stage0(cur_in, s, route)
             if m:
                 fails.append(("rebuild-" + m[0] if not m[0].startswith("edge-list/") else m[0],
                               "[%s] pass %d after edits %s: %s" % (route, i, es, m[1])))
